@@ -162,7 +162,7 @@ INFO = {
     "files": ["mappyfile/pprint.py", "mappyfile/utils.py"],
     "functions": ["mappyfile.pprint.PrettyPrinter.*"],
     "bounds": {"indent": "0..8", "spacer": "' ' or tab", "quote": "' or \"", "newlinechar": "LF, CRLF, space", "string_leaf": "2 symbolic code points",
-               "number_leaf": "symbolic index into 4 values", "align_lemma": "key length <= 1023, indent 0..64"},
+               "number_leaf": "symbolic choice between two values (0, 7)", "align_lemma": "key length <= 1023, indent 0..64"},
     "outside": ["multi-line string values (excepted by the statement)", "comment lines (C14)", "documents other than the block-kind cover (layout code does not branch on content beyond block kind)"],
     "assumptions": [],
     "stubs": [],
